@@ -186,7 +186,7 @@ func TestC18Pipe(t *testing.T) {
 
 // workerStage runs generated pipelines (generator and differential oracle of C12) under another property's name:
 // the stage that makes a library-level check sensitive to what the worker around the library does.
-func workerStage(t *testing.T, prop, rule string, proto func(*rapid.T) string, adjust func(*rapid.T, *plCase)) {
+func workerStage(t *testing.T, prop, rule string, proto func(*rapid.T) string, adjust func(*rapid.T, *plCase), opts ...string) {
 	col := getCollector(prop, "")
 	col.Rule += rule
 	col.sampler = summarisePipelineOrSelf
@@ -195,7 +195,7 @@ func workerStage(t *testing.T, prop, rule string, proto func(*rapid.T) string, a
 	envs["ipfix"].NoEnterprise = true
 	envs["ipfix"].Big, envs["nf9"].Big = true, true
 	gen := rapid.Custom(func(t *rapid.T) plCase {
-		c := genPipeline(t, proto(t), envs, 200)
+		c := genPipeline(t, proto(t), envs, 200, opts...)
 		if adjust != nil {
 			adjust(t, &c)
 		}
@@ -228,6 +228,13 @@ func TestC05Pipe(t *testing.T) {
 	})
 }
 
+const c04PipeRule = " | worker stage (TestC04Pipe): generated IPFIX / NetFlow v9 pipelines (generator of C12) through the real workers, each ending in a queue-overflow episode: with a slow consumer more than 1000 publishing datagrams " +
+	"fill the message queue, a template is redefined while it is full, and the data that follows must be decoded with the redefinition (what the full queue drops is dropped; which template is the latest does not depend on it)"
+
+func TestC04Pipe(t *testing.T) {
+	workerStage(t, "C04", c04PipeRule, func(t *rapid.T) string { return rapid.SampledFrom([]string{"ipfix", "nf9"}).Draw(t, "proto") }, nil, "overflow")
+}
+
 const c09PipeRule = " | worker stage (TestC09Pipe): generated IPFIX / NetFlow v9 pipelines (generator of C12: truncated, unknown-template, reserved-id, partly decodable and corrupted datagrams between valid ones, receive buffers reused across sizes) " +
 	"through the real workers; what is published for a cut or partly undecodable datagram equals the library decode of exactly the octets received (nothing left in a recycled buffer is ever interpreted)"
 
@@ -247,7 +254,7 @@ func summarisePipelineOrSelf(cj []byte) []byte {
 }
 
 func init() {
-	for _, p := range []string{"C18", "C05", "C09"} {
+	for _, p := range []string{"C18", "C05", "C09", "C04"} {
 		prop := p
 		registerReplayExtra(prop, "phases", func(raw json.RawMessage) error {
 			defer drivers.stopAll()
